@@ -113,6 +113,14 @@ func propC04(c *Ctx) {
 		c.seed("long-key", strings.Repeat("é", n/2), strings.Repeat("ｶﾞ", n/6))
 		c.seed("long-salt", "m", strings.Repeat("z", n))
 	}
+	// Hangul in mixed forms: precomposed syllables next to conjoining jamo, compatibility jamo (U+3131…),
+	// half-width jamo (U+FFA0…) and circled / parenthesised Hangul — a shortcut that decomposes syllables by
+	// arithmetic and copies "jamo" through is right for each form alone and wrong for the mixture
+	for _, hs := range []string{"하하ㅋㅋ", "한글ᄒ", "가ﾡ나", "㉠가㈀", "ㅎㅏㄴ글", "a가ㅋb", "각ᆨㄱ", "힣ㆎ", "가\u3164나", "ㄱ", "ﾡ", "㉮"} {
+		c.seed("hangul-mixed-forms", hs, "p")
+		c.seed("hangul-mixed-forms", "m", hs)
+		c.seed("hangul-mixed-forms", norm.NFKD.String(hs), norm.NFC.String(hs))
+	}
 	// arguments that SHRINK under NFKD: supplementary-plane compatibility letters (4 bytes each, one ASCII letter
 	// after normalisation), in lengths around the 128-byte HMAC block on either side of the normalisation — a
 	// decision taken on the raw length (pre-hashing "long" keys, buffer sizing) is wrong exactly here
@@ -447,6 +455,12 @@ func propC11(c *Ctx) {
 		}
 		group("high-expansion", "legal winner thank year wave sausage worth useful legal winner thank yellow", hp.String())
 		group("han-compat-only", hh.String(), hh.String())
+	}
+	// Hangul in mixed forms (precomposed syllables with compatibility, half-width, circled jamo): every normal
+	// form of the mixture must give the seed of the mixture
+	for _, hs := range []string{"하하ㅋㅋ", "한글ᄒ", "가ﾡ나", "㉠가㈀", "ㅎㅏㄴ글", "a가ㅋb", "각ᆨㄱ"} {
+		group("hangul-mixed-forms", hs, hs)
+		group("hangul-mixed-forms", "legal winner thank year wave sausage worth useful legal winner thank yellow", hs)
 	}
 	ja := c.specSentence(int64(langVals[5]), c.randBytes(16))
 	a := implSeed(ja, "メートルガバヴァぱばぐゞちぢ十人十色")
